@@ -80,8 +80,7 @@ func runC15(c *Ctx) {
 				}
 				req := &http.Request{Method: "GET", URL: &url.URL{Path: path, RawQuery: "q=1", Host: "h"}, Header: http.Header{"Accept": {"a/b"}}, Host: "h"}
 				before := *req.URL
-				ctx := types.NewContext()
-				ctx.Set("pre", "kept")
+				ctx, preP, preS := c15Ctx(r)
 				got := m.Match(req, ctx)
 				c.Eval()
 				wantOK, wantPath, wantVal := refPathVersion(orig, path)
@@ -94,7 +93,10 @@ func runC15(c *Ctx) {
 					if c.WantSample("path-version") && len(orig) > 1 {
 						c.Sample("path-version", det)
 					}
-					wantParams := map[string]string{"pre": "kept"}
+					wantParams := map[string]string{}
+					for k, v := range preP {
+						wantParams[k] = v
+					}
 					if param != "" {
 						wantParams[param] = wantVal
 					}
@@ -109,7 +111,7 @@ func runC15(c *Ctx) {
 				default:
 					c.Class("path_reject")
 					after := *req.URL
-					if after != before || ctxParams(ctx) != `{pre:"kept"}` || req.Host != "h" || req.Header.Get("Accept") != "a/b" {
+					if after != before || ctxParams(ctx) != preS || req.Host != "h" || req.Header.Get("Accept") != "a/b" {
 						c.Violate("rejecting path-version matcher modified the request or the parameters", det)
 					}
 					c.Nontrivial(fmt.Sprintf("pv|%v|%s", orig, path))
@@ -118,6 +120,9 @@ func runC15(c *Ctx) {
 					c.Violate("path-version matcher touched other URL fields", det)
 				}
 				ctx.Destroy()
+				if got && !c.Violated() {
+					c15InsideRejectingAnd(c, m, path, det)
+				}
 			}
 			continue
 		}
@@ -177,8 +182,7 @@ func runC15(c *Ctx) {
 			if accept != "" || r.Bool() {
 				req.Header.Set("Accept", accept)
 			}
-			ctx := types.NewContext()
-			ctx.Set("pre", "kept")
+			ctx, preP, preS := c15Ctx(r)
 			got := m.Match(req, ctx)
 			c.Eval()
 			det := map[string]any{"versions": vs, "key": key, "param": param, "accept": accept, "accepted": got, "params_after": ctxParams(ctx)}
@@ -190,7 +194,10 @@ func runC15(c *Ctx) {
 				if c.WantSample("header-version") {
 					c.Sample("header-version", det)
 				}
-				wantParams := map[string]string{"pre": "kept"}
+				wantParams := map[string]string{}
+				for k, v := range preP {
+					wantParams[k] = v
+				}
 				if param != "" {
 					wantParams[param] = wantVal
 				}
@@ -200,14 +207,77 @@ func runC15(c *Ctx) {
 				c.Nontrivial("hv|" + accept)
 			default:
 				c.Class("header_reject")
-				if ctxParams(ctx) != `{pre:"kept"}` || req.URL.Path != "/p" || req.Header.Get("Accept") != accept {
+				if ctxParams(ctx) != preS || req.URL.Path != "/p" || req.Header.Get("Accept") != accept {
 					c.Violate("rejecting header-version matcher modified the request or the parameters", det)
 				}
 				c.Nontrivial("hv|" + accept)
 			}
 			ctx.Destroy()
+			// matchers share nothing: a second header-version matcher with another parameter name judges the very same
+			// header text right afterwards, then the first one once more
+			if _, ps, err := mime.ParseMediaType(accept); err == nil && accept != "" && !c.Violated() {
+				key2 := "x-api"
+				if r.Bool() {
+					key2 = "charset"
+				}
+				vs2 := []string{"utf-8", "9"}
+				if wantVal != "" {
+					vs2 = append(vs2, wantVal)
+				}
+				m2 := mux.NewHeaderVersion("ver2", key2, func(error) {}, vs2...)
+				ctx2 := &types.Context{}
+				got2 := m2.Match(req, ctx2)
+				v2, has2 := ps[key2]
+				c.Eval()
+				c.Class("second_header_matcher_same_header")
+				if got2 != (has2 && contains(vs2, v2)) || got2 && ctxParams(ctx2) != fmtParams(map[string]string{"ver2": v2}) {
+					c.Violate(fmt.Sprintf("a second header-version matcher (key %q, versions %q) answered accepted=%v params=%s on the header another matcher (key %q) had just judged", key2, vs2, got2, ctxParams(ctx2), effKey), det)
+				}
+				ctx3 := &types.Context{}
+				if again := m.Match(req, ctx3); again != wantOK {
+					c.Violate(fmt.Sprintf("the first matcher answered accepted=%v, then %v on the same request after another matcher looked at it", wantOK, again), det)
+				}
+			}
 		}
 	}
+}
+
+// c15InsideRejectingAnd: an accepting path-version matcher inside a conjunction whose later member rejects - the
+// conjunction rejects, and the rejection leaves path and parameters as they were (all four ways of building it).
+func c15InsideRejectingAnd(c *Ctx, m mux.Matcher, path string, det map[string]any) {
+	no := func(*http.Request, *types.Context) bool { return false }
+	for name, and := range map[string]mux.Matcher{
+		"AndMatcher":     mux.AndMatcher(m, mux.MatcherFunc(no)),
+		"AndMatcherFunc": mux.AndMatcherFunc(m.Match, no),
+	} {
+		req := &http.Request{Method: "GET", URL: &url.URL{Path: path}, Header: http.Header{}, Host: "h"}
+		ctx := &types.Context{}
+		if len(path)%2 == 0 {
+			ctx = types.NewContext()
+			ctx.Set("pre", "kept")
+		}
+		before := ctxParams(ctx)
+		c.Eval()
+		c.Class("version_matcher_inside_rejecting_and")
+		if and.Match(req, ctx) || req.URL.Path != path || ctxParams(ctx) != before {
+			c.Violate(fmt.Sprintf("%s(version matcher, rejecting member): the rejection left path %q params %s (before: %q %s)", name, req.URL.Path, ctxParams(ctx), path, before), det)
+			return
+		}
+	}
+}
+
+// c15Ctx: the context handed to the matcher - from the pool with a parameter already in it, from the pool and empty,
+// or the object the pool's New function makes (it never owned a parameter map).
+func c15Ctx(r *ref.R) (*types.Context, map[string]string, string) {
+	switch r.Intn(4) {
+	case 0:
+		return &types.Context{}, map[string]string{}, "{}"
+	case 1:
+		return types.NewContext(), map[string]string{}, "{}"
+	}
+	ctx := types.NewContext()
+	ctx.Set("pre", "kept")
+	return ctx, map[string]string{"pre": "kept"}, `{pre:"kept"}`
 }
 
 func init() {
